@@ -46,6 +46,7 @@ class SimLoop(asyncio.BaseEventLoop):
         self._stall_min = float(cfg.get("cost_stall_min", 0.05))
         self._stall_max = float(cfg.get("cost_stall_max", 0.5))
         self.crash_hook: Optional[Callable[[int], None]] = None   # called with callback index
+        self.endpoint_hooks: List[Callable[[Any, Any], None]] = []   # (transport, protocol) at creation
         self.host_ip = CLIENT_IP
         self.set_exception_handler(self._on_exception)
         net.who = self._who
@@ -155,6 +156,8 @@ class SimLoop(asyncio.BaseEventLoop):
         transport = SimTransport(self, self.net, protocol, local, label)
         self.transports.append(transport)
         self.log.add("endpoint-open", label, local, self._who())
+        for hook in self.endpoint_hooks:
+            hook(transport, protocol)
         waiter = self.create_future()
         self.call_soon(protocol.connection_made, transport)
         self.call_soon(_set_result_unless_cancelled, waiter, None)
